@@ -149,7 +149,7 @@ func NewFilterFS(fs FS, opt *FilterOpt) (FS, error) {
 
 func (fs *filterFS) Open(p string) (io.ReadCloser, error) {
 	if fs.includeMatcher != nil {
-		m, err := fs.includeMatcher.MatchesOrParentMatches(p)
+		m, err := matchesLikeWalk(fs.includeMatcher, p)
 		if err != nil {
 			return nil, err
 		}
@@ -158,7 +158,7 @@ func (fs *filterFS) Open(p string) (io.ReadCloser, error) {
 		}
 	}
 	if fs.excludeMatcher != nil {
-		m, err := fs.excludeMatcher.MatchesOrParentMatches(p)
+		m, err := matchesLikeWalk(fs.excludeMatcher, p)
 		if err != nil {
 			return nil, err
 		}
@@ -167,6 +167,25 @@ func (fs *filterFS) Open(p string) (io.ReadCloser, error) {
 		}
 	}
 	return fs.fs.Open(p)
+}
+
+// matchesLikeWalk evaluates p the way Walk does, component by component with
+// the match results of the parent directory, so that Open and Walk agree on
+// which paths are visible.
+func matchesLikeWalk(pm *patternmatcher.PatternMatcher, p string) (bool, error) {
+	var (
+		m    bool
+		info patternmatcher.MatchInfo
+		err  error
+	)
+	parts := strings.Split(filepath.Clean(p), string(filepath.Separator))
+	for i := range parts {
+		m, info, err = pm.MatchesUsingParentResults(strings.Join(parts[:i+1], string(filepath.Separator)), info)
+		if err != nil {
+			return false, err
+		}
+	}
+	return m, nil
 }
 
 func (fs *filterFS) Walk(ctx context.Context, target string, fn gofs.WalkDirFunc) error {
